@@ -81,6 +81,33 @@ class SplitPrefixComplete(SplitPrefix):
     def canary(self, it, a, r, old):
         return None
 
+    def replay(self, model, label):
+        from .replaylib import script
+        return script(model, r'''
+from unyt.unit_systems import _split_prefix
+s = MODEL["symbol_str"]
+reg = UnitRegistry(add_default_symbols=False)
+splits = []
+for p in unit_prefixes:
+    if s.startswith(p) and len(s) > len(p):
+        rest = s[len(p):]
+        if rest not in reg.lut:
+            reg.add(rest, 1.0, D.length, prefixable=True)
+        splits.append((p, rest))
+print("string", repr(s), "admits the prefix+prefixable splits", splits)
+res = _split_prefix(s, reg.lut)
+print("_split_prefix ->", res)
+if splits and res[0] == "":
+    try:
+        Unit(s, registry=reg)
+        print("Unit(%r) resolved" % s)
+    except Exception as e:
+        print("Unit(%r) raised %r" % (s, e))
+    print("VIOLATION reproduced: a valid prefix + prefixable-unit reading exists but none is found")
+    sys.exit(1)
+sys.exit(0)
+''')
+
 
 class UnitStr(Contract):
     name = "unyt.unit_object.Unit.__str__"
@@ -204,3 +231,84 @@ if abs(lhs - rhs) > tol or not none_ok:
 print("not reproduced")
 sys.exit(0)
 ''')
+
+
+class LookupUnitSymbol(Contract):
+    name = "unyt.unit_registry._lookup_unit_symbol"
+    properties = ("C02", "C12", "C13", "C14", "C20")
+
+    def formals(self, it):
+        return {"symbol_str": it.fresh_str("symbol_str"), "unit_symbol_lut": SLut.fresh(it, "lut")}
+
+    def track(self, it, a):
+        it.ctx.track("symbol_str", a.symbol_str)
+        it.ctx.track("prefix", pfx_of(to_z3(a.symbol_str), a.unit_symbol_lut.term))
+
+    def requires(self, it, a):
+        return [("len(symbol_str) >= 1", z3.Length(to_z3(a.symbol_str)) >= 1)]
+
+    def snapshot(self, it, a):
+        return a.unit_symbol_lut.term
+
+    def _parts(self, it, a, old):
+        P = it.domain.prefix_table(it)
+        s = to_z3(a.symbol_str)
+        p = pfx_of(s, old)
+        rest = z3.SubString(s, z3.Length(p), z3.Length(s) - z3.Length(p))
+        return P, s, p, rest
+
+    def raises(self, it, a):
+        old = a.unit_symbol_lut.term
+        P, s, p, rest = self._parts(it, a, old)
+        return {"UnitParseError": z3.And(z3.Not(RowSort.present(z3.Select(old, s))),
+                                         p == z3.StringVal(""))}
+
+    def result(self, it, a):
+        # deterministic: either the stored row, or the derived prefixed row (written back)
+        lut = a.unit_symbol_lut
+        old = lut.term
+        P, s, p, rest = self._parts(it, a, old)
+        if it.branch(RowSort.present(z3.Select(old, s))):
+            return row_tuple(z3.Select(old, s))
+        base = z3.Select(old, rest)
+        # facts from _split_prefix's contract for a non-empty prefix
+        it.assume(z3.And(S.is_prefix(P, p), RowSort.present(base), RowSort.prefixable(base),
+                         z3.Concat(p, rest) == s))
+        from pyvc.unyt_domain import row_dim
+        res = (RowSort.scale(base) * S.prefix_value_term(P, p), row_dim(base),
+               RowSort.offset(base), it.fresh_str("latex"), False)
+        lut.sv_setitem(it, a.symbol_str, res)
+        return res
+
+    def ensures(self, it, a, r, old):
+        from pyvc.unyt_domain import make_row, row_dim
+        lut = a.unit_symbol_lut
+        P, s, p, rest = self._parts(it, a, old)
+        present = RowSort.present(z3.Select(old, s))
+        stored = z3.Select(old, s)
+        base = z3.Select(old, rest)
+        scale, dim, off, tex, pref = r
+        dimeq = lambda d, row: z3.And(_b(d.eq(row_dim(row))), to_z3(d.ref) == RowSort.dref(row))
+        return [
+            ("known symbol: the table row is returned unchanged and the table is not written",
+             z3.Implies(present, z3.And(to_real(scale) == RowSort.scale(stored),
+                                        dimeq(dim, stored), to_real(off) == RowSort.offset(stored),
+                                        to_z3(tex) == RowSort.tex(stored),
+                                        to_z3(pref) == RowSort.prefixable(stored),
+                                        lut.term == old))),
+            ("prefixed symbol: scale = base scale x prefix value; dimension and offset of the base",
+             z3.Implies(z3.Not(present),
+                        z3.And(to_real(scale) == RowSort.scale(base) * S.prefix_value_term(P, p),
+                               dimeq(dim, base), to_real(off) == RowSort.offset(base),
+                               to_z3(pref) == z3.BoolVal(False)))),
+            ("prefixed symbol: only the row for symbol_str is written, with the returned data",
+             z3.Implies(z3.Not(present), lut.term == z3.Store(old, s, make_row(it, r)))),
+            ("a table symbol always wins over a prefix split (no second reading)",
+             z3.Implies(present, to_real(scale) == RowSort.scale(stored))),
+        ]
+
+    def on_raise(self, it, a, old, exc):
+        return [("table unchanged when the symbol is unknown", a.unit_symbol_lut.term == old)]
+
+    def canary(self, it, a, r, old):
+        return to_z3(r[4]) == z3.BoolVal(False)
